@@ -355,3 +355,17 @@ Proof.
   - unfold range_only. repeat split; try reflexivity; apply libcall_plt_free; reflexivity.
   - cbn. repeat constructor.
 Qed.
+
+(* statements as used in Properties_C07.v *)
+Lemma range_std_window c rs : range_only c -> sorted rs -> dcons 0 rs ->
+  Forall (fun r => r_depth r < gdepth c) rs ->
+  map ob_rt (run_std c rs) = map shown_rec (filter (fun r => in_window c (r_time r)) rs).
+Proof.
+  intros H1 H2 H3 H4. rewrite (range_std c rs H1 H2 H3 H4). unfold window.
+  f_equal. apply filter_ext. intro r. apply in_range_window.
+Qed.
+Lemma range_replay_script c rs : range_only c -> sorted rs -> dcons 0 rs ->
+  Forall (fun r => r_depth r < gdepth c) rs ->
+  map ob_rt (run_rp c rs) = map shown_rec (window c rs)
+  /\ map ob_rt (run_script c rs) = map shown_rec (window c rs).
+Proof. intros H1 H2 H3 H4. split; [exact (range_replay c rs H1 H2 H3 H4)|exact (range_script c rs H1 H2 H3 H4)]. Qed.
